@@ -1,7 +1,7 @@
 #!/bin/bash
 # usage: try_seed.sh <patch.diff> <prop id>...   applies the patch to /repo, runs the checks, reverts.
 patch=$1; shift
-cd /repo && git apply "$patch" || { echo "patch does not apply"; exit 2; }
+cd /repo && { [ -z "$(git status --porcelain)" ] || { echo "REFUSING: /repo has uncommitted changes"; exit 3; }; } && git apply "$patch" || { echo "patch does not apply"; exit 2; }
 for id in "$@"; do
   (cd /verif && timeout 900 ./bin/vfy check $id 2>&1 | grep "VIOLATION\|KNOWN\|property\|BROKEN" | sed 's/replay=.verif.replays.//' | cut -c1-260)
 done
